@@ -2616,9 +2616,11 @@ class SlicedMemoryIO(object):
         if n_bytes < 0:
             n_bytes = self._end_address - self.address
 
-        # Determine how far to read, then read nothing beyond that point.
-        if self.address + n_bytes > self._end_address:
-            new_n_bytes = self._end_address - self.address
+        # Determine how far to read, then read nothing beyond that point (nor
+        # anything at all when positioned outside the region).
+        if self._offset < 0 or self.address + n_bytes > self._end_address:
+            new_n_bytes = (0 if self._offset < 0 else
+                           max(0, self._end_address - self.address))
             warnings.warn("read truncated from {} to {} bytes".format(
                 n_bytes, new_n_bytes), TruncationWarning, stacklevel=3)
             n_bytes = new_n_bytes
@@ -2655,8 +2657,9 @@ class SlicedMemoryIO(object):
         int
             Number of bytes written.
         """
-        if self.address + len(bytes) > self._end_address:
-            n_bytes = self._end_address - self.address
+        if self._offset < 0 or self.address + len(bytes) > self._end_address:
+            n_bytes = (0 if self._offset < 0 else
+                       max(0, self._end_address - self.address))
 
             warnings.warn("write truncated from {} to {} bytes".format(
                 len(bytes), n_bytes), TruncationWarning, stacklevel=3)
